@@ -74,6 +74,27 @@ Section IOProofs.
       rewrite Hd. cbn [obind]. rewrite IH2. rewrite IH3. auto.
   Qed.
 
+  Lemma feat_wfb_sound : forall st (f : feat tensor),
+    feat_wfb valid_nested valid_embed st f = true -> fwf st f.
+  Proof.
+    intros st [t|m|m|d]; cbn [feat_wfb feat_wf]; intros H.
+    - apply andb_true_iff in H. destruct H as (H & H3). apply andb_true_iff in H. destruct H as (H1 & H2).
+      apply negb_true_iff in H1, H2, H3. auto.
+    - apply andb_true_iff in H. exact H.
+    - apply andb_true_iff in H. exact H.
+    - apply andb_true_iff in H. destruct H as (H1 & H2). split; auto.
+      apply Forall_forall. intros p Hp. exact (proj1 (forallb_forall _ _) H2 p Hp).
+  Qed.
+
+  Lemma tframe_wfb_sound : forall t : tframe tensor,
+    tframe_wfb tdim tsize valid_nested valid_embed t = true -> twf t.
+  Proof.
+    intros t H. unfold tframe_wfb in H.
+    apply andb_true_iff in H. destruct H as (H1 & H2).
+    split; [|exact H2].
+    apply Forall_forall. intros p Hp. apply feat_wfb_sound. exact (proj1 (forallb_forall _ _) H1 p Hp).
+  Qed.
+
   (* ---------------------------------------------------------------- *)
   Variable byte : Type.
   Variable enc : payload tensor stats -> list byte.
@@ -87,12 +108,12 @@ Section IOProofs.
   Lemma save_load_roundtrip : forall (t : tframe tensor) (cs : stats), twf t ->
     exists b, save t cs = Some b /\ load b = Some (t, cs).
   Proof.
-    intros t cs (Hfd & Hv & Hn).
+    intros t cs (Hfd & Hv).
     destruct (feat_dict_roundtrip _ Hfd) as (sd & Hs & Hd & _).
     unfold IO.save, save_payload, IO.load. rewrite Hs. cbn [obind option_map].
     eexists; split; [reflexivity|].
-    rewrite H_dec_enc. cbn [obind fst snd d_ser d_names d_y]. rewrite Hd. cbn [obind].
-    unfold mk_tframe. destruct t as [fd names y nr]. cbn in Hn. subst nr. cbn [tf_feat tf_names tf_y].
+    rewrite H_dec_enc. cbn [obind fst snd d_ser d_names d_y d_num_rows]. rewrite Hd. cbn [obind].
+    unfold mk_tframe. destruct t as [fd names y nr]. cbn [tf_feat tf_names tf_y tf_num_rows].
     rewrite Hv. reflexivity.
   Qed.
 
@@ -322,9 +343,15 @@ Section IOProofs.
       [OCrash _ _ _;
        if p then (if k <? List.length B then ORaise _ _ _ else OMat _ ft fcs) else OMat _ ft fcs].
   Proof.
-    intros k p. cbn [IO.run IO.step fst snd init]. unfold IO.materialize, isfile.
-    cbn [fs cur new_dataset ds_mat andb negb fst snd]. rewrite H_B. cbn [fst snd fs cur written].
-    destruct p; cbn [andb ds_mat new_dataset].
+    intros k p.
+    assert (S1 : step (init tensor stats byte) (CrashDuringSave _ k) =
+                 (MkW (Some (firstn k B)) (new_dataset tensor stats), OCrash _ _ _)).
+    { unfold init. cbn [IO.step]. unfold IO.materialize, isfile.
+      cbn [fs cur new_dataset ds_mat andb negb fst snd]. rewrite H_B. reflexivity. }
+    cbn [IO.run]. rewrite S1. cbn [fst snd]. f_equal. f_equal.
+    cbn [IO.step fst snd]. unfold IO.materialize, isfile.
+    cbn [fs cur new_dataset ds_mat andb negb fst snd].
+    destruct p; cbn [andb].
     - destruct (load_prefix k) as [(Hk & ->) | (Hk & ->)].
       + apply Nat.ltb_lt in Hk. rewrite Hk. reflexivity.
       + apply Nat.ltb_ge in Hk. rewrite Hk. reflexivity.
